@@ -77,6 +77,7 @@ struct World {
 	std::vector<std::map<std::string, int> > nanswer;     // per party: tag -> r-answers consumed
 	std::vector<std::map<std::string, long> > nextseq;    // per party: ID.who -> next expected s (FIFO)
 	std::vector<std::list<Dlv> > pend;                    // per party: delivered into DeliverFrom buffers, not yet returned
+	std::set<std::string> ld_senders;                     // ID.who of slots delivered through the out-of-order handler (l-deliver)
 	bool misuse;                                          // a channel was re-entered in a way that voids the order oracle
 	unsigned long nfail;
 
@@ -139,6 +140,7 @@ struct World {
 		std::string ctx = "party=" + std::to_string(p) + " sender=" + std::to_string(who) + " channel=" + id + " s=" + s + " value=" + v + " via=" + how;
 		if (id != idnow) fail("isolation", "delivery crossed channels: current channel " + idnow + " " + ctx);
 		if (who >= n) { fail("integrity", "sender index out of range " + ctx); return; }
+		if (how == "action7") ld_senders.insert(id + "." + hxi(who));
 		// agreement
 		auto ag = agreed.find(tag);
 		if (ag == agreed.end()) agreed[tag] = v;
@@ -353,8 +355,13 @@ static void finish_world(World &W) {
 			W.fail("liveness-validity", "all messages handed over, but party " + std::to_string(p) + " never delivered honest broadcast tag=" + kv.first + " value=" + kv.second);
 	}
 	for (auto &kv : W.agreed) {
+		// finding F10: a slot fetched through the out-of-order handler may have been answered by parties sitting on another
+		// channel (the l-retrieve handler does not compare the channel); such a slot, and the later slots of that sender on
+		// that channel (FIFO), can stay undeliverable for the other honest parties
+		std::string idwho = kv.first.substr(0, kv.first.rfind('.'));
+		std::string key = W.ld_senders.count(idwho) ? "ldeliver-cross-channel-totality" : "liveness-totality";
 		for (size_t p = 0; p < W.n; p++) if (W.honest(p) && !W.ndeliv[p].count(kv.first))
-			W.fail("liveness-totality", "all messages handed over, slot " + kv.first + " was delivered by an honest party but never by party " + std::to_string(p));
+			W.fail(key, "all messages handed over, slot " + kv.first + " was delivered by an honest party but never by party " + std::to_string(p));
 	}
 }
 
@@ -380,6 +387,65 @@ static void world_race(bool emit, bool fifo, int variant) {
 	for (size_t p = 0; p < 3; p++) { while (!W.q[3][p].empty()) W.do_deliver(p, 3); }   // they answer
 	if (variant == 0) { for (size_t s = 0; s < 3; s++) while (!W.q[s][3].empty()) W.do_deliver(3, (long)s); }
 	else { for (int s = 2; s >= 0; s--) while (!W.q[s][3].empty()) W.do_deliver(3, s); }
+	finish_world(W);
+	g_total_fail += W.nfail;
+}
+
+// Counter recovery (regression for: unsetID not refreshing the saved counters on the SECOND and later unsetID of a channel):
+// all parties enter channel "a" (and the nested "a"/"b"), exchange FIFO traffic, leave, come back with recoverID -- `rounds`
+// times, with broadcasts of every party in every visit; every broadcast must be delivered in order by everybody.
+static void world_recover(bool emit, size_t n, unsigned rounds, bool nested, int variant) {
+	int wid = g_world++;
+	if (!want_world(wid)) return;
+	reseed_lib(9000 + wid);
+	size_t t = (n - 1) / 3;
+	World W(wid, n, t, 0, std::vector<bool>(n, false), emit, true);
+	std::vector<std::string> pa(1, "a"), pab; pab.push_back("a"); pab.push_back("b");
+	std::vector<std::string> root;
+	for (unsigned r = 0; r < rounds; r++) {
+		const std::vector<std::string> &target = (nested && (r % 2 == 1)) ? pab : pa;
+		for (size_t p = 0; p < n; p++) W.goto_path(p, target, fifo_of_name);
+		for (size_t p = 0; p < n; p++) { W.do_broadcast(p, fresh_value()); if ((p + r) % 2 == 0) W.do_broadcast(p, fresh_value()); }
+		if (variant == 0) W.drain();
+		else { // leave part of the traffic in flight across the switch
+			for (size_t d = 0; d < n; d++) for (size_t s0 = 0; s0 < n; s0++) if (!W.q[s0][d].empty() && (s0 + d + r) % 3 != 0) W.do_deliver(d, (long)s0);
+		}
+		// a root-channel broadcast between the visits
+		for (size_t p = 0; p < n; p++) W.goto_path(p, root, fifo_of_name);
+		W.do_broadcast(r % n, fresh_value());
+		if (variant == 0) W.drain();
+	}
+	finish_world(W);
+	g_total_fail += W.nfail;
+}
+
+// Cross-channel l-deliver (candidate finding): the l-retrieve handler answers "fifo && s < deliver_s[who]" with the counter of the
+// responder's CURRENT channel, whatever channel the tag names (non-FIFO responders answer always).  n = 4, t = 1, P3 faulty:
+// P0 sits on channel "a", P1 and P2 on another channel; P3 gives the payload of slot (a,3,1) to P1 and P2 only and never lets a
+// quorum form for it, but broadcasts slot (a,3,2) properly.  P0 fetches slot 1 through the out-of-order handler (P1, P2, P3
+// answer) and delivers it; P1 and P2 can never deliver it.
+static void world_cross(bool emit, bool nonfifo_responders) {
+	int wid = g_world++;
+	if (!want_world(wid)) return;
+	reseed_lib(9500 + wid);
+	std::vector<bool> byz(4, false); byz[3] = true;
+	World W(wid, 4, 1, 0, byz, emit, true);
+	std::vector<std::string> pa(1, "a"), py(1, nonfifo_responders ? "x" : "y");
+	W.goto_path(0, pa, fifo_of_name); W.goto_path(1, py, fifo_of_name); W.goto_path(2, py, fifo_of_name);
+	std::string ida = W.cur(0), idy = W.cur(1);
+	auto full = [&](const std::string &id, const std::string &s, const std::string &v) {   // P3 behaves like an honest sender
+		for (size_t d = 0; d < 3; d++) { M m = { id, "3", s, "1", v }; W.push(3, d, m); }
+		for (size_t d = 0; d < 3; d++) { M m = { id, "3", s, "2", H(v) }; W.push(3, d, m); }
+		for (size_t d = 0; d < 3; d++) { M m = { id, "3", s, "3", H(v) }; W.push(3, d, m); }
+		W.drain();
+	};
+	if (!nonfifo_responders) full(idy, "1", "5100");          // P1, P2 deliver slot 1 of P3 on their channel: deliver_s[3] = 2 there
+	for (size_t d = 1; d < 3; d++) { M m = { ida, "3", "1", "1", "5101" }; W.push(3, d, m); }   // payload of (a,3,1) to P1, P2 only
+	W.drain();
+	full(ida, "2", "5102");                                   // slot (a,3,2) for everybody: P0 buffers it and asks for slot 1
+	W.drain();
+	{ M m = { ida, "3", "1", "7", "5101" }; W.push(3, 0, m); } // P3 joins the l-deliver answers
+	W.drain();
 	finish_world(W);
 	g_total_fail += W.nfail;
 }
@@ -559,6 +625,11 @@ int main(int argc, char **argv) {
 	bool th = args.thorough();
 	// 1. the scripted races (always recorded for the model)
 	for (int fifo = 0; fifo < 2; fifo++) { world_race(true, fifo, 0); world_race(true, fifo, 1); }
+	// 1b. counter recovery after k-fold unsetID / recoverID (k = 2..4), flat and nested, drained and with traffic in flight
+	for (unsigned k = 2; k <= 4; k++) for (int nested = 0; nested < 2; nested++) for (int var = 0; var < 2; var++)
+		world_recover(true, (k == 3) ? 3 : 4, k, nested, var);
+	// 1c. cross-channel answers of the out-of-order handler
+	world_cross(true, false); world_cross(true, true);
 	// 2. systematic interleavings for n = 4, t = 1
 	unsigned depth = th ? 5 : 4, width = 4;
 	unsigned long total = 1; for (unsigned k = 0; k < depth; k++) total *= width;
